@@ -43,6 +43,8 @@ type Stats struct {
 	MultiErrEntries   int
 	TransitiveBlocked int
 	ShadowEvents      int
+	BareCtxErrJobs    int // jobs that failed with a bare context.Canceled / DeadlineExceeded of their own
+	NestedErrJobs     int // jobs that failed with the error of an inner scheduler's Wait (inner job killed its goroutine)
 	DeadCtxJobs       int // jobs submitted with a context of their own that was already done
 	DeadCtxReached    int // ... whose dependencies all succeeded (a worker received them)
 	ExactStates       int
@@ -61,8 +63,8 @@ func (x *Exec) judge() (viols []Viol, st Stats) {
 	st.MaxOngoing = int(x.perturb.maxOngoing.Load())
 	st.Sig = x.perturb.sig.Load()
 	st.Dispatches = int(x.perturb.dispatches.Load())
-	st.WorkersStarted = int(x.perturb.workersStart.Load())
 	x.perturb.stMu.Lock()
+	st.WorkersStarted = x.perturb.wstarts[x.perturb.key.Load()]
 	for s := range x.perturb.states {
 		st.AbsStates = append(st.AbsStates, s)
 	}
@@ -134,9 +136,11 @@ func (x *Exec) judge() (viols []Viol, st Stats) {
 		if x.censusSched > x.limit+2 {
 			add("C03", "%d scheduler goroutines while %d bodies were held (limit %d, %d jobs submitted): goroutines grow beyond f(limit)", x.censusSched, x.reachTgt, x.limit, n)
 		}
-		if st.WorkersStarted > x.limit+st.Goexits {
-			add("C03", "%d workers were started; limit %d, %d jobs killed their goroutine", st.WorkersStarted, x.limit, st.Goexits)
-		}
+	}
+	// exact, from the worker-start events of this scenario's scheduler: a worker
+	// beyond the limit is only ever started to replace one that a job killed
+	if st.WorkersStarted > x.limit+st.Goexits {
+		add("C03", "%d workers were started; limit %d, %d jobs killed their goroutine", st.WorkersStarted, x.limit, st.Goexits)
 	}
 
 	// transitive closure helpers
@@ -170,6 +174,23 @@ func (x *Exec) judge() (viols []Viol, st Stats) {
 		}
 		if ran[i] {
 			add("C09", "job %d was started although the context it was submitted with was done before it was submitted (%v)", i, x.deadCtx[k].Err())
+		}
+	}
+	// jobs that failed with a bare context sentinel of their own
+	bareFailed := [3]int{}
+	bare := func(i int) int {
+		if k := sc.Jobs[i].ErrKind; (k == 3 || k == 4) && x.recs[i].outcome.Load() == 2 {
+			return k - 2
+		}
+		return 0
+	}
+	for i := range x.recs {
+		if k := bare(i); k > 0 {
+			bareFailed[k]++
+			st.BareCtxErrJobs++
+		}
+		if sc.Jobs[i].ErrKind == 1 && x.recs[i].outcome.Load() == 2 {
+			st.NestedErrJobs++
 		}
 	}
 	deadKindOf := func(e error) int { // identity: the error values of the done contexts
@@ -228,7 +249,7 @@ func (x *Exec) judge() (viols []Viol, st Stats) {
 			e := x.waitErr
 			switch {
 			case ownerOf(e) < 0 && isCtxErr(e): // identity first: a job's own error may claim (Is) to be anything
-				if !cancelled && !anyDead[deadKindOf(e)] {
+				if k := deadKindOf(e); !cancelled && !anyDead[k] && bareFailed[k] == 0 {
 					add("C07", "Wait returned %v but the context was never cancelled", e)
 				}
 			default:
@@ -295,13 +316,13 @@ func (x *Exec) judge() (viols []Viol, st Stats) {
 					// (a job downstream of a failure whose own context is done may
 					// be reported with that context's error as well: it was skipped
 					// by cancellation too)
-					if deadSeen[k] < deadKinds[k] || deadSeen[k] > deadAll[k] {
-						add("C08", "the returned error has %d entries %q; %d jobs were submitted with a context of their own that was done with that error, %d of them with dependencies that all succeeded (the directive's context was never cancelled)", deadSeen[k], x.deadCtx[k].Err(), deadAll[k], deadKinds[k])
+					if deadSeen[k] < deadKinds[k]+bareFailed[k] || deadSeen[k] > deadAll[k]+bareFailed[k] {
+						add("C08", "the returned error has %d entries %q; %d jobs returned that very value, %d jobs were submitted with a context of their own that was done with that error, %d of them with dependencies that all succeeded (the directive's context was never cancelled)", deadSeen[k], x.deadCtx[k].Err(), bareFailed[k], deadAll[k], deadKinds[k])
 					}
 				}
 				for i := range x.recs {
 					want := 0
-					if x.recs[i].outcome.Load() == 2 {
+					if x.recs[i].outcome.Load() == 2 && bare(i) == 0 {
 						want = 1
 					}
 					if seen[i] != want {
